@@ -240,7 +240,47 @@ class FCheck(SCheck):
         return it
 
     def minimise(self, sim, item, f, deadline):
-        return item
+        """shrink the focused replay item (one fault or kill) while the same (property, class) reproduces: simplest scheduler, no
+        user-space stepping, fewer setup entries, one worker.  Faults are addressed as "n-th call C on object P", so they stay on
+        their call when unrelated entries disappear; a kill is addressed by site index and simply fails to reproduce (candidate
+        rejected) when the index shifts."""
+        import time
+        if item.get("only") is None:
+            return item
+        best = copy.deepcopy(item)
+
+        def reproduces(cand):
+            try:
+                rec = self.run_item(sim, cand)
+            except Exception:
+                return False
+            return any(g["property"] == f["property"] and g["class"] == f["class"] for r in rec["runs"] for g in r["findings"])
+
+        if best["plan"]["sched"].get("kind") != "rtb" and time.time() < deadline:
+            cand = copy.deepcopy(best)
+            cand["plan"]["sched"] = {"kind": "rtb"}
+            if reproduces(cand):
+                best = cand
+        if any(k.startswith("ustep") for k in best["plan"]["sched"]) and time.time() < deadline:
+            cand = copy.deepcopy(best)
+            cand["plan"]["sched"] = {k: v for k, v in cand["plan"]["sched"].items() if not k.startswith("ustep")}
+            if reproduces(cand):
+                best = cand
+        i = len(best["case"].get("setup", [])) - 1
+        while i >= 0 and time.time() < deadline:
+            cand = copy.deepcopy(best)
+            del cand["case"]["setup"][i]
+            if reproduces(cand):
+                best = cand
+            i -= 1
+        for st in range(len(best["case"]["steps"])):
+            inv = best["case"]["steps"][st].get("inv")
+            if inv and inv.get("workers", 1) > 1 and time.time() < deadline:
+                cand = copy.deepcopy(best)
+                cand["case"]["steps"][st]["inv"]["workers"] = 1
+                if reproduces(cand):
+                    best = cand
+        return best
 
 
 def robust_plan(plan, res):
